@@ -103,8 +103,14 @@ fn act_strategy() -> impl Strategy<Value = Act> {
     ]
 }
 
+/// Initial delegates: 1 (the author's own vote is a majority), 2-3, and 4 (smallest set in which one
+/// wrongly counted vote tips a majority of 3).
+fn delegates_strategy() -> impl Strategy<Value = u8> {
+    prop_oneof![5 => Just(1u8), 3 => Just(2u8), 5 => Just(3u8), 7 => Just(4u8)]
+}
+
 fn case_strategy(max: usize) -> impl Strategy<Value = Case> {
-    prop_oneof![1 => 1u8..=3, 1 => Just(4u8)].prop_flat_map(move |delegates| case_strategy_for(delegates, max))
+    delegates_strategy().prop_flat_map(move |delegates| case_strategy_for(delegates, max))
 }
 
 fn case_strategy_for(delegates: u8, max: usize) -> impl Strategy<Value = Case> {
@@ -136,10 +142,12 @@ fn rounds_strategy() -> impl Strategy<Value = Case> {
         proptest::collection::vec((0u8..5, sg(), proptest::bool::weighted(0.15)), 0..5),
         proptest::option::weighted(0.3, (0u8..NKEYS, act_strategy(), any::<u16>())),
         0u8..3,
+        // a proposal on top of a revision that is no longer current (made from an outdated replica)
+        proptest::option::weighted(0.35, (0u8..5, prop_oneof![1 => Just(DocEdit::ToggleVisibility), 1 => (0u8..NKEYS).prop_map(DocEdit::AddDelegate)], prop_oneof![3 => Just(65533u16), 1 => Just(0u16)])),
     );
-    (prop_oneof![1 => 1u8..=3, 1 => Just(4u8)], proptest::collection::vec(round, 1..5)).prop_map(|(delegates, rounds)| {
+    (delegates_strategy(), proptest::collection::vec(round, 1..5)).prop_map(|(delegates, rounds)| {
         let mut changes = vec![];
-        for (proposer, edit, sig, accepts, noise, ts) in rounds {
+        for (proposer, edit, sig, accepts, noise, ts, stale) in rounds {
             changes.push(Change { author: 100 + proposer, parents: vec![u16::MAX], ts, actions: vec![Act::Revision { edit, parent: 65534, sig }] });
             for (voter, sig, fork) in accepts {
                 // mostly linear; a "fork" accept hangs off an earlier change (concurrent branch)
@@ -148,6 +156,9 @@ fn rounds_strategy() -> impl Strategy<Value = Case> {
             }
             if let Some((who, act, parent)) = noise {
                 changes.push(Change { author: who, parents: vec![parent], ts, actions: vec![act] });
+            }
+            if let Some((who, edit, parent)) = stale {
+                changes.push(Change { author: 100 + who, parents: vec![u16::MAX], ts, actions: vec![Act::Revision { edit, parent, sig: Sg::Valid }] });
             }
         }
         Case { delegates, changes }
@@ -166,6 +177,8 @@ struct RevInfo {
     change: usize,
     doc: Doc,
     blob: Oid,
+    /// index (into the generator's list of revisions) of the revision this one was proposed on
+    parent_ix: usize,
 }
 
 fn check(ctx: &Ctx, c: &Case) -> CaseResult {
@@ -208,7 +221,7 @@ fn check_in(ctx: &Ctx, lab: &CobLab, c: &Case, clean_only: bool) -> CaseResult {
     let mut parents: Vec<Vec<usize>> = vec![vec![]];
     let mut authors: Vec<u8> = vec![0];
     // revisions known so far (by index into `revs`): root first
-    let mut revs: Vec<RevInfo> = vec![RevInfo { change: 0, doc: lab.doc.clone(), blob: lab.doc.encode().unwrap().0 }];
+    let mut revs: Vec<RevInfo> = vec![RevInfo { change: 0, doc: lab.doc.clone(), blob: lab.doc.encode().unwrap().0, parent_ix: 0 }];
     let mut had_bad_sig = false;
     // generator-side guess of which revision is current and who voted for the open proposal
     let mut model_current: usize = 0;
@@ -247,7 +260,12 @@ fn check_in(ctx: &Ctx, lab: &CobLab, c: &Case, clean_only: bool) -> CaseResult {
             };
             let action = match a {
                 Act::Revision { edit, parent, sig } if new_rev.is_none() => {
-                    let pr_ix = if *parent == 65534 { model_current } else { pick(*parent, revs.len()) };
+                    // 65534: the revision the generator's model considers current; 65533: the one before it (stale)
+                    let pr_ix = match *parent {
+                        65534 => model_current,
+                        65533 => revs[model_current].parent_ix,
+                        p => pick(p, revs.len()),
+                    };
                     let pr = &revs[pr_ix];
                     let did = |k: u8| Did::from(lab.key(k));
                     // Resolve the edit against the parent document so that it usually is a real change:
@@ -256,6 +274,9 @@ fn check_in(ctx: &Ctx, lab: &CobLab, c: &Case, clean_only: bool) -> CaseResult {
                     let is_del = |k: u8| pr.doc.delegates().iter().any(|d| *d == did(k));
                     let ndel = pr.doc.delegates().len();
                     let cur_t = pr.doc.threshold();
+                    // with a single delegate, removing it or changing the threshold cannot be a real change:
+                    // toggle the visibility instead (keeps the single-delegate document, majority 1)
+                    let edit = if ndel == 1 && matches!(edit, DocEdit::RemoveDelegate(_) | DocEdit::Threshold(_)) { &DocEdit::ToggleVisibility } else { edit };
                     let edited = pr.doc.clone().with_edits(|raw| match edit {
                         DocEdit::AddDelegate(k) => {
                             let k = (0..NKEYS).map(|o| (*k + o) % NKEYS).find(|k| !is_del(*k)).unwrap_or(*k);
@@ -291,7 +312,7 @@ fn check_in(ctx: &Ctx, lab: &CobLab, c: &Case, clean_only: bool) -> CaseResult {
                     if pr_ix == model_current && *sig == Sg::Valid && pr.doc.delegates().iter().any(|d| *d == did(author)) {
                         proposal = Some((revs.len(), BTreeSet::from([author])));
                     }
-                    new_rev = Some(RevInfo { change: i, doc, blob });
+                    new_rev = Some(RevInfo { change: i, doc, blob, parent_ix: pr_ix });
                     identity::Action::Revision {
                         title: format!("rev {i}"),
                         description: String::new(),
